@@ -1212,3 +1212,33 @@ def bc_mirror_clause(vals, kind, bc, dir):
     if not (np.all(np.isfinite(o1)) and np.all(np.isfinite(o2))):
         return True
     return close(o2, [s * x for s, x in zip(PP, o1)])
+
+
+# --------------------------------------------------------------------------------------
+# C09
+
+def maxprinciple_clause(vals, model, num, limiter, cfl):
+    import flowdyn.mesh as mesh, flowdyn.modeldisc as md, flowdyn.modelphy.burgers as bu, flowdyn.modelphy.convection as conv
+    import flowdyn.xnum as xnum, flowdyn.integration as ti, flowdyn.field as field, itertools
+    ok = True
+    lims = ["minmod", "vanalbada", "vanleer", "superbee"] if limiter == "all" else [limiter]
+    vals5 = [-2.0, -0.5, 0.3, 1.0, 3.0]
+    for lim in lims:
+        for a in ([1.5, -0.7] if model == "convection" else [None]):
+            for integ in ("explicit", "rk2_heun", "rk3ssp"):
+                for d in [np.array(p) for n in (3, 4, 5, 6) for p in itertools.product(vals5, repeat=n)][::11]:
+                    n = len(d)
+                    msh = mesh.unimesh(ncell=n, length=1.0) if num == "muscl" else mesh.morphedmesh(ncell=n, length=1.0, morph=lambda x: x + 0.4 * x * x)
+                    mdl = conv.model(a) if model == "convection" else bu.model()
+                    nm = xnum.muscl(getattr(xnum, lim)) if num == "muscl" else xnum.extrapol1()
+                    disc = md.fvm1d(mdl, msh, nm)
+                    f = field.fdata(mdl, msh, [d.copy()])
+                    dt = float(np.min(disc.calc_timestep(f, cfl)))
+                    getattr(ti, integ)(msh, disc).step(f, dt)
+                    q = f.data[0]
+                    tv0, tv1 = np.sum(np.abs(np.roll(d, -1) - d)), np.sum(np.abs(np.roll(q, -1) - q))
+                    if q.min() < d.min() - 1e-12 or q.max() > d.max() + 1e-12 or tv1 > tv0 * (1 + 1e-12) + 1e-13:
+                        show(model=model, limiter=lim, a=a, integrator=integ, data=d.tolist(), after=q.tolist(), tv=(tv0, tv1))
+                        ok = False
+                        break
+    return ok
